@@ -234,6 +234,30 @@ Fixpoint gen_positional (o : list group) (ps : list param) : outcome (list (goki
       end
   end.
 
+(* the parameters that become positional arguments, in order (the selection gen_positional makes) *)
+Fixpoint arg_params (ps : list param) : list param :=
+  match ps with
+  | [] => []
+  | p :: t =>
+    let closes := match t with [] => true | q :: _ => negb (same_go_type p q) end in
+    if closes && is_bitflags p then arg_params t else p :: arg_params t
+  end.
+
+(* Go resolves an identifier of the method body to the argument of that name *)
+Fixpoint arg_index (ident : str) (l : list param) (i : nat) : option nat :=
+  match l with
+  | [] => None
+  | q :: t => if beq (goify (p_name q) false) ident then Some i else arg_index ident t (S i)
+  end.
+
+(* generateMethodArgumentForMakingRequest, positional case: the literal &<Name>Params{Field: argument, ...}.
+   One entry per parameter other than the flags word, in the order of the struct's fields: the Go field
+   name and the position of the argument whose identifier is written there (the identifier is goify(name,
+   false), with a suffix that depends on it alone; None = no such argument: does not compile) *)
+Definition gen_call (ps : list param) : list (str * option nat) :=
+  map (fun p => (goify (p_name p) true, arg_index (goify (p_name p) false) (arg_params ps) 0))
+      (filter (fun p => negb (is_bitflags p)) ps).
+
 Definition gen_args (o : list group) (m : def) : outcome margs :=
   match d_params m with
   | [] => Ok ANone
